@@ -28,8 +28,8 @@
     hence lies inside the text and is printed by consolePrint without any out-of-range slice.
     Not modelled: Combinator.crc32() (runs on the finished AST) and the AST construction itself; for those
     the implementation-side oracle applies (recover(), error offsets, ConsolePrint/Error() do not panic).
-    [C19_parser_error_in_range_partial] is the same in-range statement for the abstract error model
-    [admissibleErr] (kept because C20 uses it for the TL2 parser). *)
+    [C19_admissible_error_in_range] is the same in-range statement for the abstract error model
+    [admissibleErr] (the lemma behind the parser theorem, and what the oracle checks on Go's own errors). *)
 From Coq Require Import List NArith ZArith.
 From TLV Require Import Lex.LexModel Lex.LexProofs Lex.LexParse1Model Lex.LexParse1Proofs Lex.LexParse1Fuel.
 Import ListNotations.
@@ -94,8 +94,9 @@ Theorem C19_tokenizer_error_in_range : forall builtin dirty s e,
 Proof. exact (fun b d => tokenizer_error_in_range (opt b d)). Qed.
 Print Assumptions C19_tokenizer_error_in_range.
 
-(** partial: about the abstract error model, not about a transcription of the parser (see header) *)
-Theorem C19_parser_error_in_range_partial : forall builtin dirty s toks e,
+(** the abstract error model: any error located at a token with an earlier-or-equal token as outer context is in
+    range (used by the parser theorem above; also what the implementation-side oracle checks on Go's own errors) *)
+Theorem C19_admissible_error_in_range : forall builtin dirty s toks e,
   parseFront (opt builtin dirty) s = Ok (F_tokens toks) -> admissibleErr toks e ->
   errCorrupted (lenN s) e = false /\
   p_off (e_begin e) <= p_off (e_end e) <= lenN s /\
@@ -103,7 +104,7 @@ Theorem C19_parser_error_in_range_partial : forall builtin dirty s toks e,
   (exists pre, e_begin e = pos_spec pre /\ exists post, s = pre ++ t_val (e_tok e) ++ post) /\
   (exists pre, e_outer e = pos_spec pre /\ exists post, s = pre ++ post).
 Proof. exact (fun b d => parser_error_in_range (opt b d)). Qed.
-Print Assumptions C19_parser_error_in_range_partial.
+Print Assumptions C19_admissible_error_in_range.
 
 (** tokenizer + transcribed parser: terminates within the fuel, no panic site reachable, every error in range *)
 Theorem C19_parser_total : forall builtin dirty s,
@@ -118,10 +119,7 @@ Theorem C19_parser_total : forall builtin dirty s,
   | PR_panic => False
   | PR_nofuel => False
   end.
-Proof.
-  intros b d s. pose proof (parseTLFile_safe (opt b d) s) as H. pose proof (parseTLFile_fuel (opt b d) s) as Hf.
-  destruct (parseTLFile (opt b d) s); auto.
-Qed.
+Proof. exact (fun b d => parseTLFile_total (opt b d)). Qed.
 Print Assumptions C19_parser_total.
 
 (** Non-vacuity: the model really tokenizes, reports errors, and the hypotheses are satisfiable. *)
